@@ -7,7 +7,7 @@ import Babylon.Future.LemmasW
 namespace Babylon.Future
 open Babylon.Core Babylon.Gen.Future
 
-structure InvR' (s : State) : Prop where
+structure InvR (s : State) : Prop where
   retReady : ∀ t, s.pc t = .ret (.ready true) → s.head = none
   noRetGot : ∀ t x, s.pc t ≠ .ret (.got x)
   resG : ∀ t x, s.result t = some (.got x) → x = s.storage ∧ s.storage.isSome = true ∧ s.xchgDone = true
@@ -15,22 +15,20 @@ structure InvR' (s : State) : Prop where
   resF : ∀ t b st to n, s.result t = some (.waited false b st to n) → b = true ∧ n ≤ s.now ∧ st ≤ n ∧ (n < 2 ^ 63 → st + to ≤ n)
   resReady : ∀ t, s.result t = some (.ready true) → s.head = none
 
-def InvR (s : State) : Prop := s.adds < 2 ^ 31 → InvR' s
-
 theorem InvR.init (n : Option Nat) : InvR (State.init n) := by
-  intro _
   constructor <;> intros <;> (cases n <;> simp_all [State.init] <;> try grind)
 
-theorem InvR'.frame {s s' : State} (hi : InvR' s) (t : Nat) (p' : Pc)
+theorem InvR.frame {s s' : State} (hi : InvR s) (t : Nat) (p' : Pc)
     (hpc : s'.pc = upd s.pc t p') (hp' : p' ≠ .ret (.ready true)) (hp2 : ∀ x, p' ≠ .ret (.got x))
     (h1 : s.head = none → s'.head = none) (h2 : s'.storage = s.storage) (h3 : s.xchgDone = true → s'.xchgDone = true)
-    (h4 : s.now ≤ s'.now) (h5 : s'.result = s.result) : InvR' s' := by
+    (h4 : s.now ≤ s'.now) (h5 : s'.result = s.result) : InvR s' := by
   obtain ⟨retReady, noRetGot, resG, resT, resF, resReady⟩ := hi
   constructor <;> intros <;> simp only [hpc, h2, h5] at * <;> grind [upd_apply]
 
 set_option maxHeartbeats 4000000 in
 theorem InvR.step {s s' : State} (h : Step s s') (hS : InvS s) (hF : InvF s) (hW : InvW s) (hi : InvR s) : InvR s' := by
-  intro hb
+  have hi' := hi
+  have hF' := hF
   obtain ⟨cons_le, seals_le, xchg_seal, storage_none, storage_some, head_none, none_fired, latch_val, at_p0, at_s0, at_s1, at_s2, at_s3, at_s4, done, open_det⟩ := hS
   obtain ⟨_, _, _, _, _, _, _, retF⟩ := hW
   cases h with
@@ -39,7 +37,7 @@ theorem InvR.step {s s' : State} (h : Step s s') (hS : InvS s) (hF : InvF s) (hW
     case q0 =>
       simp only [Option.some.injEq, Prod.mk.injEq] at hst
       obtain ⟨rfl, rfl⟩ := hst
-      obtain ⟨retReady, noRetGot, resG, resT, resF, resReady⟩ := hi hb
+      obtain ⟨retReady, noRetGot, resG, resT, resF, resReady⟩ := hi
       cases hh : s.head <;>
         (constructor <;> intros <;> (try dsimp only at *) <;> first | assumption | grind [upd_apply])
     all_goals (try split at hst)
@@ -48,21 +46,20 @@ theorem InvR.step {s s' : State} (h : Step s s') (hS : InvS s) (hF : InvF s) (hW
     all_goals (try simp only [Option.some.injEq, Prod.mk.injEq, reduceCtorEq] at hst)
     all_goals (try (obtain ⟨rfl, rfl⟩ := hst))
     all_goals (try (exfalso; assumption))
-    all_goals (dsimp only at hb; have hi' := hi (by omega); have hF' := hF (by omega))
     all_goals (first
-      | (refine InvR'.frame hi' t _ rfl ?_ ?_ ?_ rfl ?_ (Nat.le_refl _) rfl <;> (simp [hpc]; done))
+      | (refine InvR.frame hi' t _ rfl ?_ ?_ ?_ rfl ?_ (Nat.le_refl _) rfl <;> (simp; done))
       | (obtain ⟨_, _, _, _, _, _, _, _, _, gR, retT⟩ := hF'
          obtain ⟨retReady, noRetGot, resG, resT, resF, resReady⟩ := hi'
          constructor <;> intros <;> (try dsimp only at *) <;> first | assumption | grind [upd_apply, setRet]))
   | tick d =>
-    obtain ⟨retReady, noRetGot, resG, resT, resF, resReady⟩ := hi hb
+    obtain ⟨retReady, noRetGot, resG, resT, resF, resReady⟩ := hi
     constructor <;> intros <;> (try dsimp only at *) <;> first | assumption | grind
-  | set t v hidle hl hsc => refine InvR'.frame (hi hb) t _ rfl ?_ ?_ (fun h => h) rfl (fun h => h) (Nat.le_refl _) rfl <;> simp
-  | down t d hidle hl h1 hb' => refine InvR'.frame (hi hb) t _ rfl ?_ ?_ (fun h => h) rfl (fun h => h) (Nat.le_refl _) rfl <;> simp
-  | get t hidle => refine InvR'.frame (hi hb) t _ rfl ?_ ?_ (fun h => h) rfl (fun h => h) (Nat.le_refl _) rfl <;> simp
-  | waitFor t tau hidle h1 h2 => refine InvR'.frame (hi hb) t _ rfl ?_ ?_ (fun h => h) rfl (fun h => h) (Nat.le_refl _) rfl <;> simp
-  | reg t id hidle hs => refine InvR'.frame (hi hb) t _ rfl ?_ ?_ (fun h => h) rfl (fun h => h) (Nat.le_refl _) rfl <;> simp
-  | ready t hidle => refine InvR'.frame (hi hb) t _ rfl ?_ ?_ (fun h => h) rfl (fun h => h) (Nat.le_refl _) rfl <;> simp
+  | set t v hidle hl hsc => refine InvR.frame hi t _ rfl ?_ ?_ (fun h => h) rfl (fun h => h) (Nat.le_refl _) rfl <;> simp
+  | down t d hidle hl h1 hb' => refine InvR.frame hi t _ rfl ?_ ?_ (fun h => h) rfl (fun h => h) (Nat.le_refl _) rfl <;> simp
+  | get t hidle => refine InvR.frame hi t _ rfl ?_ ?_ (fun h => h) rfl (fun h => h) (Nat.le_refl _) rfl <;> simp
+  | waitFor t tau hidle h1 h2 => refine InvR.frame hi t _ rfl ?_ ?_ (fun h => h) rfl (fun h => h) (Nat.le_refl _) rfl <;> simp
+  | reg t id hidle hs => refine InvR.frame hi t _ rfl ?_ ?_ (fun h => h) rfl (fun h => h) (Nat.le_refl _) rfl <;> simp
+  | ready t hidle => refine InvR.frame hi t _ rfl ?_ ?_ (fun h => h) rfl (fun h => h) (Nat.le_refl _) rfl <;> simp
 
 theorem InvR.reach {s : State} (h : Reachable Init Step s) : InvR s := by
   induction h with
